@@ -7,8 +7,12 @@ package main
 
 import (
 	"context"
+	"crypto/rsa"
+	"crypto/sha256"
+	"crypto/x509"
 	"encoding/hex"
 	"fmt"
+	"math/big"
 	"os"
 	"runtime"
 	"strings"
@@ -38,7 +42,8 @@ type envIn struct {
 	Payload string `json:"payload"`
 	Sender  string `json:"sender"`
 	Seqno   uint64 `json:"seqno"`
-	Pubsub  bool   `json:"pubsub"` // go through processPubsubMessage (marshalled container)
+	Pubsub  bool   `json:"pubsub"`        // go through processPubsubMessage (marshalled container)
+	Key     string `json:"key,omitempty"` // pubsub Key field (authors whose ID does not inline the key)
 	Note    string `json:"note"`
 }
 type input struct {
@@ -179,7 +184,11 @@ func runCase(in input, budget time.Duration) (coq string, out []string, sig map[
 				if merr != nil {
 					panic(merr)
 				}
-				err = vc.ProcessPubsubMessage(&pubsub.Message{Message: &pubsubpb.Message{Data: data, From: unhex(e.From)}})
+				pm := &pubsubpb.Message{Data: data, From: unhex(e.From)}
+				if e.Key != "" {
+					pm.Key = unhex(e.Key)
+				}
+				err = vc.ProcessPubsubMessage(&pubsub.Message{Message: pm})
 			} else {
 				err = vc.ProcessContainerMessage(peer.ID(unhex(e.From)), msg)
 			}
@@ -335,11 +344,12 @@ func run(in input, em *lib.Emitter, id string) {
 // ---------------------------------------------------------------- generation
 
 type poolKey struct {
-	priv libp2pcrypto.PrivKey
-	pub  libp2pcrypto.PubKey
-	id   peer.ID
-	idb  []byte // identity bytes (pb.Identity)
-	kind string
+	priv    libp2pcrypto.PrivKey
+	pub     libp2pcrypto.PubKey
+	id      peer.ID
+	idb     []byte // identity bytes (pb.Identity)
+	kind    string
+	inlined bool // the peer ID is an identity multihash of the key (the key can be extracted from it)
 }
 
 type rngReader struct{ r *lib.Rng }
@@ -349,44 +359,125 @@ func (rr rngReader) Read(p []byte) (int, error) {
 	return len(p), nil
 }
 
-func mkPool(r *lib.Rng) []poolKey {
-	var pool []poolKey
-	add := func(priv libp2pcrypto.PrivKey, pub libp2pcrypto.PubKey, kind string) {
-		id, err := peer.IDFromPublicKey(pub)
-		if err != nil {
-			panic(err)
-		}
-		idb, err := libp2p.VerifIdentityMarshal(id, pub)
-		if err != nil {
-			panic(err)
-		}
-		pool = append(pool, poolKey{priv, pub, id, idb, kind})
+func mkKey(priv libp2pcrypto.PrivKey, pub libp2pcrypto.PubKey, kind string) poolKey {
+	id, err := peer.IDFromPublicKey(pub)
+	if err != nil {
+		panic(err)
 	}
-	for i := 0; i < 4; i++ {
+	idb, err := libp2p.VerifIdentityMarshal(id, pub)
+	if err != nil {
+		panic(err)
+	}
+	_, xerr := id.ExtractPublicKey()
+	return poolKey{priv, pub, id, idb, kind, xerr == nil}
+}
+
+// A real RSA public key (product of two primes found deterministically from the PRNG;
+// crypto/rsa.GenerateKey is deliberately not reproducible).  Its libp2p peer ID is the sha2-256
+// multihash of the marshalled key ("Qm..."): the key is NOT recoverable from the ID.
+func rsaPrime(r *lib.Rng, bits int) *big.Int {
+	one := big.NewInt(1)
+	e := big.NewInt(65537)
+	for {
+		b := r.Bytes(bits / 8)
+		b[0] |= 0xC0
+		b[len(b)-1] |= 1
+		p := new(big.Int).SetBytes(b)
+		if !p.ProbablyPrime(20) {
+			continue
+		}
+		if new(big.Int).GCD(nil, nil, new(big.Int).Sub(p, one), e).Cmp(one) != 0 {
+			continue
+		}
+		return p
+	}
+}
+
+func mkRSA(r *lib.Rng, bits int) poolKey {
+	p, q := rsaPrime(r, bits/2), rsaPrime(r, bits/2)
+	std := &rsa.PublicKey{N: new(big.Int).Mul(p, q), E: 65537}
+	der, err := x509.MarshalPKIXPublicKey(std)
+	if err != nil {
+		panic(err)
+	}
+	t := cryptopb.KeyType_RSA
+	kb, err := proto.Marshal(&cryptopb.PublicKey{Type: &t, Data: der})
+	if err != nil {
+		panic(err)
+	}
+	pub, err := libp2pcrypto.UnmarshalPublicKey(kb)
+	if err != nil {
+		panic(err)
+	}
+	k := mkKey(nil, pub, fmt.Sprintf("rsa%d", bits))
+	if k.inlined {
+		panic("an RSA peer ID inlines its key")
+	}
+	return k
+}
+
+// pool layout: 0-3 secp256k1 operators (inlined IDs), 4 Ed25519 (inlined), 5 ECDSA P-256
+// (hashed ID), 6.. the RSA keys of the run (hashed IDs)
+const nSecp = 4
+
+func mkPool(r *lib.Rng, rsaKeys []poolKey) []poolKey {
+	var pool []poolKey
+	for i := 0; i < nSecp; i++ {
 		priv, pub, err := libp2pcrypto.GenerateSecp256k1Key(rngReader{r})
 		if err != nil {
 			panic(err)
 		}
-		add(priv, pub, "secp")
+		pool = append(pool, mkKey(priv, pub, "secp"))
 	}
 	priv, pub, err := libp2pcrypto.GenerateEd25519Key(rngReader{r})
 	if err != nil {
 		panic(err)
 	}
-	add(priv, pub, "ed25519")
+	pool = append(pool, mkKey(priv, pub, "ed25519"))
 	priv, pub, err = libp2pcrypto.GenerateECDSAKeyPair(rngReader{r})
 	if err != nil {
 		panic(err)
 	}
-	add(priv, pub, "ecdsa")
-	return pool
+	pool = append(pool, mkKey(priv, pub, "ecdsa"))
+	return append(pool, rsaKeys...)
+}
+
+// peer IDs that are close to, but not, the given one: what a sloppy comparison (prefix, length,
+// digest only, key bytes only) would confuse with it
+func nearID(r *lib.Rng, k poolKey) ([]byte, string) {
+	id := []byte(k.id)
+	kb, _ := libp2pcrypto.MarshalPublicKey(k.pub)
+	switch r.Intn(7) {
+	case 0: // proper prefix (at least the multihash header survives when long enough)
+		return append([]byte{}, id[:r.Range(1, len(id)-1)]...), "prefix"
+	case 1:
+		return append(append([]byte{}, id...), r.Bytes(r.Range(1, 4))...), "extended"
+	case 2: // one bit off, anywhere
+		b := append([]byte{}, id...)
+		b[r.Intn(len(b))] ^= byte(1 << uint(r.Intn(8)))
+		return b, "bitflip"
+	case 3: // last byte off: same header, same length
+		b := append([]byte{}, id...)
+		b[len(b)-1] ^= byte(1 + r.Intn(255))
+		return b, "tail"
+	case 4: // sha2-256 multihash of the same marshalled key (well-formed hashed ID, same key)
+		h := sha256.Sum256(kb)
+		return append([]byte{0x12, 0x20}, h[:]...), "hashed-same-key"
+	case 5: // identity multihash of the same raw key bytes under another key type
+		raw, _ := k.pub.Raw()
+		t := []cryptopb.KeyType{cryptopb.KeyType_Ed25519, cryptopb.KeyType_ECDSA, cryptopb.KeyType_RSA}[r.Intn(3)]
+		b, _ := proto.Marshal(&cryptopb.PublicKey{Type: &t, Data: raw})
+		return append([]byte{0x00, byte(len(b))}, b...), "retyped-key"
+	default: // the bare marshalled key without the multihash header
+		return kb, "bare-key"
+	}
 }
 
 var typeA, typeB = "verif/type-a", "verif/type-b"
 
 func genEnv(r *lib.Rng, pool []poolKey, seqno uint64) envIn {
 	e := envIn{Seqno: seqno, Pubsub: r.Chance(1, 4)}
-	k := pool[r.Intn(4)] // a secp256k1 author by default
+	k := pool[r.Intn(nSecp)] // a secp256k1 author by default
 	from := []byte(k.id)
 	sender := k.idb
 	typ := []byte(typeA)
@@ -395,7 +486,7 @@ func genEnv(r *lib.Rng, pool []poolKey, seqno uint64) envIn {
 	}
 	payload := append([]byte{byte(r.Intn(250))}, r.Bytes(r.Intn(12))...)
 	note := "ok"
-	switch c := r.Intn(20); {
+	switch c := r.Intn(26); {
 	case c < 7: // fully valid
 		if r.Chance(1, 5) { // unknown protobuf field appended to the identity: still decodes
 			sender = append(append([]byte{}, sender...), 0x10, 0x01)
@@ -420,7 +511,7 @@ func genEnv(r *lib.Rng, pool []poolKey, seqno uint64) envIn {
 	case c == 11: // authenticated author is someone else (or nobody)
 		switch r.Intn(3) {
 		case 0:
-			from = []byte(pool[(r.Intn(3)+1+indexOf(pool, k.id))%4].id)
+			from = []byte(pool[(r.Intn(nSecp-1)+1+indexOf(pool, k.id))%nSecp].id)
 		case 1:
 			from = r.Bytes(r.Range(1, 40))
 		default:
@@ -428,7 +519,7 @@ func genEnv(r *lib.Rng, pool []poolKey, seqno uint64) envIn {
 		}
 		note = "mismatch-author"
 	case c == 12: // matching but not an operator key type
-		o := pool[4+r.Intn(2)]
+		o := pool[nSecp+r.Intn(len(pool)-nSecp)]
 		from, sender = []byte(o.id), o.idb
 		note = "non-secp-" + o.kind
 	case c == 13:
@@ -456,10 +547,56 @@ func genEnv(r *lib.Rng, pool []poolKey, seqno uint64) envIn {
 		kb, _ := proto.Marshal(&cryptopb.PublicKey{Type: &t, Data: raw})
 		sender, _ = proto.Marshal(&pb.Identity{PubKey: kb})
 		note = "identity-wrong-key-type"
-	default: // two problems at once
+	case c == 19: // two problems at once
 		sender = r.Bytes(r.Intn(40))
 		typ = []byte("verif/unknown")
 		note = "unknown-type+identity-random"
+	case c == 20 || c == 21: // impersonation by an author whose peer ID does not inline its key
+		// (sha2-256 "Qm..." ID: RSA, ECDSA): the inner identity is a valid operator's
+		var hashed []poolKey
+		for _, o := range pool {
+			if !o.inlined {
+				hashed = append(hashed, o)
+			}
+		}
+		o := hashed[r.Intn(len(hashed))]
+		from = []byte(o.id)
+		note = "mismatch-hashed-author-" + o.kind
+	case c == 22: // impersonation by an author with an inlined key that is not an operator key
+		from = []byte(pool[nSecp].id)
+		note = "mismatch-" + pool[nSecp].kind + "-author"
+	case c == 23 || c == 24: // an author ID that only resembles the inner identity's ID
+		var how string
+		from, how = nearID(r, k)
+		if string(from) == string(k.id) {
+			from = append(from, 0)
+		}
+		note = "mismatch-near-author-" + how
+	default: // a non-operator inner identity (any kind) claimed by an operator-keyed author, or by
+		// another non-operator author
+		o := pool[nSecp+r.Intn(len(pool)-nSecp)]
+		sender = o.idb
+		if r.Bool() {
+			a := pool[nSecp+r.Intn(len(pool)-nSecp)]
+			for a.id == o.id {
+				a = pool[nSecp+r.Intn(len(pool)-nSecp)]
+			}
+			from = []byte(a.id)
+		}
+		note = "mismatch-non-secp-inner"
+	}
+	// undecodable / non-key identities arrive from every kind of author, not only secp256k1 ones
+	if strings.HasPrefix(note, "identity-") && r.Chance(1, 3) {
+		from = []byte(pool[r.Intn(len(pool))].id)
+	}
+	// on the pubsub path an author whose ID does not inline the key ships the key in the message
+	if e.Pubsub {
+		for _, o := range pool {
+			if string(o.id) == string(from) && !o.inlined {
+				kb, _ := libp2pcrypto.MarshalPublicKey(o.pub)
+				e.Key = hex.EncodeToString(kb)
+			}
+		}
 	}
 	e.From, e.Sender, e.Type, e.Payload, e.Note = hex.EncodeToString(from), hex.EncodeToString(sender),
 		hex.EncodeToString(typ), hex.EncodeToString(payload), note
@@ -480,7 +617,7 @@ func roundtrips(pool []poolKey) [][]string {
 	for _, k := range pool {
 		kb, _ := libp2pcrypto.MarshalPublicKey(k.pub)
 		rts = append(rts, []string{hex.EncodeToString([]byte(k.id)), hex.EncodeToString(kb)})
-		if k.kind != "ecdsa" { // identity-hash peer IDs: Marshal can extract the key from the ID
+		if k.inlined { // identity-hash peer IDs: Marshal can extract the key from the ID
 			rts = append(rts, []string{hex.EncodeToString([]byte(k.id)), ""})
 		}
 	}
@@ -528,11 +665,11 @@ func main() {
 	// --- corpus: one envelope of every kind next to a valid one, fixed key pool
 	{
 		r := lib.NewRng(18)
-		pool := mkPool(r)
+		pool := mkPool(r, []poolKey{mkRSA(r.Fork("rsa"), 2048)})
 		seen := map[string]bool{}
 		var envs []envIn
-		sq := seqnos(r, 400)
-		for i := 0; len(seen) < 16 && i < 400; i++ {
+		sq := seqnos(r, 1500)
+		for i := 0; i < 1500; i++ {
 			e := genEnv(r, pool, sq[i])
 			if !seen[e.Note] {
 				seen[e.Note] = true
@@ -540,22 +677,61 @@ func main() {
 			}
 		}
 		run(input{Registered: reg, Envs: envs, Handlers: 2, Roundtrip: roundtrips(pool)}, em, "corpus-all-kinds")
+		hx := func(b []byte) string { return hex.EncodeToString(b) }
 		// the tampered-sender case of the channel tests: A's envelope published by B
 		a, b := pool[0], pool[1]
 		run(input{Registered: reg, Handlers: 1, Envs: []envIn{
-			{From: hex.EncodeToString([]byte(b.id)), Type: reg[0], Payload: "0102", Sender: hex.EncodeToString(a.idb), Seqno: 1, Note: "mismatch-author"},
-			{From: hex.EncodeToString([]byte(a.id)), Type: reg[0], Payload: "0102", Sender: hex.EncodeToString(a.idb), Seqno: 1, Note: "ok"},
-			{From: hex.EncodeToString([]byte(b.id)), Type: reg[0], Payload: "0102", Sender: hex.EncodeToString(b.idb), Seqno: 1, Note: "ok"},
+			{From: hx([]byte(b.id)), Type: reg[0], Payload: "0102", Sender: hx(a.idb), Seqno: 1, Note: "mismatch-author"},
+			{From: hx([]byte(a.id)), Type: reg[0], Payload: "0102", Sender: hx(a.idb), Seqno: 1, Note: "ok"},
+			{From: hx([]byte(b.id)), Type: reg[0], Payload: "0102", Sender: hx(b.idb), Seqno: 1, Note: "ok"},
 		}}, em, "corpus-tampered-sender")
 		run(input{Registered: nil, Handlers: 1, Envs: []envIn{
-			{From: hex.EncodeToString([]byte(a.id)), Type: reg[0], Payload: "0102", Sender: hex.EncodeToString(a.idb), Seqno: 7, Note: "unknown-type"},
+			{From: hx([]byte(a.id)), Type: reg[0], Payload: "0102", Sender: hx(a.idb), Seqno: 7, Note: "unknown-type"},
 		}}, em, "corpus-nothing-registered")
+		// operator A impersonated by every kind of author libp2p can authenticate: another operator
+		// (secp256k1, inlined key), Ed25519 (inlined), ECDSA and RSA-2048 (sha2-256 "Qm..." IDs that
+		// do not inline the key), both paths; and by IDs that merely resemble A's (seeded C18a)
+		var imp []envIn
+		seq := uint64(100)
+		for _, o := range pool[1:] {
+			for _, ps := range []bool{false, true} {
+				e := envIn{From: hx([]byte(o.id)), Type: reg[0], Payload: "0102", Sender: hx(a.idb), Seqno: seq, Pubsub: ps,
+					Note: "mismatch-" + o.kind + "-author"}
+				if !o.inlined {
+					e.Note = "mismatch-hashed-author-" + o.kind
+					if ps {
+						kb, _ := libp2pcrypto.MarshalPublicKey(o.pub)
+						e.Key = hx(kb)
+					}
+				}
+				imp = append(imp, e)
+				seq++
+			}
+		}
+		idA := []byte(a.id)
+		kbA, _ := libp2pcrypto.MarshalPublicKey(a.pub)
+		hA := sha256.Sum256(kbA)
+		flipped := append([]byte{}, idA...)
+		flipped[len(flipped)-1] ^= 1
+		for _, near := range [][]byte{nil, idA[:1], idA[:2], idA[:6], idA[:len(idA)-1], append(append([]byte{}, idA...), 0),
+			flipped, append([]byte{0x12, 0x20}, hA[:]...), kbA} {
+			imp = append(imp, envIn{From: hx(near), Type: reg[0], Payload: "0102", Sender: hx(a.idb), Seqno: seq, Note: "mismatch-near-author"})
+			seq++
+		}
+		imp = append(imp, envIn{From: hx(idA), Type: reg[0], Payload: "0102", Sender: hx(a.idb), Seqno: seq, Note: "ok"})
+		// the non-operator authors speaking for themselves: decoded, matched, refused for the key type
+		for _, o := range pool[nSecp:] {
+			seq++
+			imp = append(imp, envIn{From: hx([]byte(o.id)), Type: reg[0], Payload: "0102", Sender: hx(o.idb), Seqno: seq, Note: "non-secp-" + o.kind})
+		}
+		run(input{Registered: reg, Handlers: 1, Envs: imp}, em, "corpus-impersonation-by-author-kind")
 	}
 
+	rsaKeys := []poolKey{mkRSA(rng.Fork("rsa-a"), 2048), mkRSA(rng.Fork("rsa-b"), 3072)}
 	n := o.Count(150, 3000)
 	for i := 0; i < n; i++ {
 		r := rng.Fork(fmt.Sprintf("case%d", i))
-		pool := mkPool(r)
+		pool := mkPool(r, rsaKeys)
 		ne := r.Range(1, 14)
 		if r.Chance(1, 10) {
 			ne = r.Range(15, 40)
@@ -576,7 +752,10 @@ func main() {
 		run(in, em, fmt.Sprintf("rand-%d", i))
 	}
 	em.Close("a case is one libp2p channel with 0-3 registered handlers fed a sequence of envelopes through "+
-		"processContainerMessage / processPubsubMessage; distinct by the full byte content; non-trivial when it "+
+		"processContainerMessage / processPubsubMessage; authenticated authors are secp256k1 / Ed25519 (key inlined in the "+
+		"peer ID), ECDSA / RSA-2048 / RSA-3072 (sha2-256 hashed ID), near misses of the inner ID (prefix, extension, bit "+
+		"flip, hashed form, retyped key), random bytes and empty, crossed with inner identities of the same peer, of "+
+		"another operator, of a non-operator key, and malformed; distinct by the full byte content; non-trivial when it "+
 		"mixes at least one deliverable envelope with at least one envelope of another kind",
 		map[string]interface{}{"inconclusive": nIncon})
 }
